@@ -352,13 +352,10 @@ def check(F, run, tier):
     # header aggregates name every field
     for q, rec, n in ((T + "TilesetHeader::Create", "OP2Utility::Tileset::TilesetHeader", 6), (T + "PpalHeader::Create", "OP2Utility::Tileset::PpalHeader", 3)):
         c = F.fns(q)[0]
-        r = returns(c)
-        cnt = None
-        for x in c.subtree(r[0]["value"]):
-            if c.n(x)["k"] == "InitListExpr" and c.n(x).get("rec") == rec:
-                cnt = len([k for k in c.kids(x) if c.n(k)["k"] != "ImplicitValueInitExpr"])
-        if cnt == len(F.record(rec)["fields"]):
-            run.add(ok("R-INIT", q + "#all-fields", c.loc(r[0]["id"]), c.qn, "the header aggregate names a value for every field (bytes determined by the picture alone)", "%d of %d" % (cnt, cnt)))
-        else:
-            run.add(bad("R-INIT", q + "#all-fields", c.loc(c.body), c.qn, "the header aggregate names a value for every field (bytes determined by the picture alone)", "%s of %d" % (cnt, len(F.record(rec)["fields"]))))
+        from ..rules_init import returned_record_complete
+        verdict, detail = returned_record_complete(F, S, c, rec)
+        if verdict is None:
+            raise AnalysisBroken("%s: %s" % (q, detail))
+        req = "the header returned has a value named for every field (bytes determined by the picture alone)"
+        run.add((ok if verdict else bad)("R-INIT", q + "#all-fields", c.loc(c.body), c.qn, req, detail))
     run.floor("obligations", len(run.obligations), 40)
